@@ -98,8 +98,8 @@ fn tamper(honest: &Pt<Fp>, lib_honest: &Point, t: &Option<RTamper>) -> (Option<P
 fn check(c: &Xc) -> CaseResult {
     let pr = r9::params();
     let n = &pr.n;
-    let ida = expand_bytes(c.id_seed, c.ida_len);
-    let idb = if c.same_id { ida.clone() } else { expand_bytes(c.id_seed ^ 0xb0b, c.idb_len) };
+    let ida = identity(c.id_seed, c.ida_len);
+    let idb = if c.same_id { ida.clone() } else { identity(c.id_seed ^ 0xb0b, c.idb_len) };
     let (h_a, h_b) = (r9::h1(&ida, 0x02), r9::h1(&idb, 0x02));
     let mut ke = match c.ke_rel & 0x0f {
         1 => h_b.clone(),
@@ -378,6 +378,17 @@ pub fn run(ctx: &Ctx) {
             let which = (i / nc_step) % 2;
             v.push(Xc { ke: gen::hex32(&BigUint::from(0x0bad_c0de_1234_5677u64)), ke_rel: 0, ida_len: 5, idb_len: 3, id_seed: 17, same_id: false, klen: 16, ra: Hex(expand_bytes(i as u64 ^ 0xe3, 32)), rb: Hex(expand_bytes(i as u64 ^ 0xe4, 32)),
                 t_ra: if which == 0 { Some(RTamper::NearCurve(i)) } else { None }, t_rb: if which == 1 { Some(RTamper::NearCurve(i)) } else { None } });
+        }
+        v
+    }, check);
+
+    ctx.listed("structured_identities", "ID_A / ID_B as applications write them, every ordered pair of neighbours in the list (mailbox-style strings that differ in case only, a string and its prefix, both orders of each pair): exact R_A, R_B, SK_A, SK_B", move || {
+        let mut v = Vec::new();
+        let l = structured_identities().len();
+        for i in 0..l {
+            for (a, b) in [(i, (i + 1) % l), ((i + 1) % l, i), (i, (i + 5) % l)] {
+                v.push(Xc { ke: gen::hex32(&BigUint::from(0x0bad_c0de_1234_5677u64)), ke_rel: 0, ida_len: STRUCTURED_ID + a, idb_len: STRUCTURED_ID + b, id_seed: 0x51d0 + i as u64, same_id: false, klen: 16 + i, ra: Hex(expand_bytes((a * 64 + b) as u64 ^ 0xe7, 32)), rb: Hex(expand_bytes((a * 64 + b) as u64 ^ 0xe8, 32)), t_ra: None, t_rb: None });
+            }
         }
         v
     }, check);
